@@ -396,6 +396,19 @@ def objects_run(case, ctx):
                      % (mode, pn, getattr(c, pn), c.w, c.wz))
     if ro_set:
         must_reject(ctx, "second assignment of the write-once attribute", lambda: setattr(c, "ro", 99), mode)
+    else:
+        # never written on the original: still unwritten on the image (the library's own `Undefined`, not a look-alike),
+        # and its ONE defining assignment is still accepted there
+        from traits.trait_base import Undefined as _U
+        if c.ro is not _U:
+            ctx.fail("state/value", "%s: the never-written write-once attribute reads %r (%s) on the image, not Undefined itself"
+                     % (mode, c.ro, type(c.ro).__name__))
+        try:
+            c.ro = 5
+        except Exception as e:
+            ctx.fail("live/write-once-refused", "%s: the image refuses the FIRST assignment of its never-written write-once "
+                     "attribute: %r" % (mode, e))
+        must_reject(ctx, "second assignment of the write-once attribute", lambda: setattr(c, "ro", 99), mode)
     if interesting:
         ctx.nontrivial()
 
@@ -526,6 +539,11 @@ def defs_run(case, ctx):
                 b = outcome(lambda: getattr(o2, "q_"))
                 if a != b and " at 0x" not in str(a) + str(b):
                     ctx.fail("definition/get-differs", "%s via %s: shadow reads %r, original %r" % (name, how, b, a))
+        # the access POLICY (write-once, constant, ...) survives too: delete, then assign twice more
+        a = [outcome(lambda: delattr(o1, "q")), outcome(lambda: setattr(o1, "q", vals[0])), outcome(lambda: setattr(o1, "q", vals[1]))]
+        b = [outcome(lambda: delattr(o2, "q")), outcome(lambda: setattr(o2, "q", vals[0])), outcome(lambda: setattr(o2, "q", vals[1]))]
+        if a != b:
+            ctx.fail("definition/set-differs", "%s via %s: delete / assign / assign gives %r, original %r" % (name, how, b, a))
 
 
 # ----------------------------------------------------------------------------- stage objkinds
